@@ -29,6 +29,7 @@ type lmRecord struct {
 	Tip     int       `json:"tip"`
 	Max     int       `json:"max"`
 	NSplits int       `json:"nsplits"`
+	Held    int       `json:"held"`
 	Entries []lmEntry `json:"entries"`
 }
 
@@ -65,23 +66,16 @@ func locmainMain(args []string) int {
 		splitAt[s.BeforeHash] = s.Height - 1
 	}
 	n := 0
-	for i := 1; i < len(fix) && 556000+i <= *to; i++ {
-		if err := repo.ProcessHeader(ctx, fix[i]); err != nil {
-			fmt.Fprintln(os.Stderr, "real header refused:", err)
-			return 2
-		}
-		heightOf[*fix[i].BlockHash()] = 556000 + i
-		tip := 556000 + i
-		if tip < *from {
-			continue
-		}
+	probe := func(tip int) bool {
 		for _, max := range []int{1, 2, 3, 5, 10, 50} {
 			hashes, err := repo.GetLocatorHashes(ctx, max)
 			if err != nil {
 				fmt.Fprintln(os.Stderr, "locator error:", err)
-				return 2
+				return false
 			}
-			rec := lmRecord{Tip: tip, Max: max, NSplits: len(splits), Entries: []lmEntry{}}
+			// Held: the lowest height whose header is in memory (the repository starts from a mocked latest header,
+			// nothing below it is held)
+			rec := lmRecord{Tip: tip, Max: max, NSplits: len(splits), Held: 556000, Entries: []lmEntry{}}
 			for _, h := range hashes {
 				if ht, ok := heightOf[h]; ok {
 					rec.Entries = append(rec.Entries, lmEntry{H: ht, Kind: "chain"})
@@ -93,6 +87,25 @@ func locmainMain(args []string) int {
 			}
 			enc.Encode(rec)
 			n++
+		}
+		return true
+	}
+	// only the tip is held
+	if !probe(556000) {
+		return 2
+	}
+	for i := 1; i < len(fix) && 556000+i <= *to; i++ {
+		if err := repo.ProcessHeader(ctx, fix[i]); err != nil {
+			fmt.Fprintln(os.Stderr, "real header refused:", err)
+			return 2
+		}
+		heightOf[*fix[i].BlockHash()] = 556000 + i
+		tip := 556000 + i
+		if tip < *from && tip > 556004 {
+			continue
+		}
+		if !probe(tip) {
+			return 2
 		}
 	}
 	fmt.Fprintf(os.Stderr, "%d locators\n", n)
